@@ -84,4 +84,16 @@ example : deletePinned l123 [[], L 0] =
   decide +kernel
 example : delete l123 [[], L 0] = .error (.ypath .noDocument) := by decide +kernel
 
+/-- integer keys are keys of their own (`ports: {80: 1, 443: 2, '443': 3}`): deleting the member under the integer
+`443` removes that member and neither its neighbours nor the member under the text `'443'`; an address that spells the
+integer as text names another member (what a delete handed the segment text in place of the key would act on). -/
+def ports : Node := .map none [(.str ['p'], .map none
+  [(.int 80, .scalar none (.int 1)), (.int 443, .scalar none (.int 2)), (.str ['4', '4', '3'], .scalar none (.int 3))])]
+example : delete ports [[.key (.str ['p']), .key (.int 443)]] = .ok (.map none [(.str ['p'], .map none
+    [(.int 80, .scalar none (.int 1)), (.str ['4', '4', '3'], .scalar none (.int 3))])]) := by
+  decide +kernel
+example : delete ports [[.key (.str ['p']), .key (.str ['4', '4', '3'])]] ≠
+    delete ports [[.key (.str ['p']), .key (.int 443)]] := by
+  decide +kernel
+
 end Ypv.C04
